@@ -396,17 +396,15 @@ impl MarkdownEventsReader {
 }
 
 fn line_starts(content: &str) -> Vec<usize> {
-    once(0)
-        .chain(
-            content
-                .lines()
-                .map(|line| line.len() + 1)
-                .scan(0, |start, len| {
-                    *start += len;
-                    Some(*start)
-                }),
-        )
-        .collect()
+    // byte offset of the start of every line; a line ends at '\n' ("\r\n" included), and the
+    // text after the last '\n' counts as a line of its own
+    let mut starts: Vec<usize> = once(0)
+        .chain(content.match_indices('\n').map(|(index, _)| index + 1))
+        .collect();
+    if !content.is_empty() && !content.ends_with('\n') {
+        starts.push(content.len() + 1);
+    }
+    starts
 }
 
 fn to_link_type(link_type: LinkType) -> document::LinkType {
